@@ -122,7 +122,7 @@ pub fn c14a_case(ex: &mut Expander, tape: &Vec<u32>, st: &mut Stats) -> Result<(
     let mut p = if reply { gen_reply_program("p_ord", tape.clone(), &opts, true) } else { gen_msg_program("p_ord", tape.clone(), &opts) };
     // random overrides (token level only)
     for k in Kind::ALL {
-        if t.chance(15) && (k != Kind::Migrate || p.has_kind(0, Kind::Migrate)) && (k != Kind::Reply || p.has_kind(0, Kind::Reply)) {
+        if t.chance(15) && !p.contract.overrides.contains(&k) && (k != Kind::Migrate || p.has_kind(0, Kind::Migrate)) && (k != Kind::Reply || p.has_kind(0, Kind::Reply)) {
             p.contract.overrides.push(k);
         }
     }
